@@ -185,6 +185,21 @@ CLAIMED["C03"] = {
     "technique": "Lean 4 theorems (bounded-state invariant, totality of each handler by case analysis with integer range arithmetic) + differential correspondence + panic-site oracle (debug and release builds)",
 }
 
+CLAIMED["C17"] = {
+    "text": "Proof. The model lists, for every host call and state, the acquisitions of the instance-state lock the code performs "
+            "(Inst.lockTrace: every with_ref / with_mut call site of the port and instance code). Theorems: the trace of every call is a "
+            "flat sequence (acquisitions are never nested - a trace is a list of complete sections) with at most one write acquisition "
+            "(writes_at_most_once); a call without a write acquisition changes nothing in the shared data sets (no_write_no_change), so "
+            "every update of the parent / current / time-properties data sets is made inside one critical section; under mutual exclusion "
+            "a concurrent observer therefore sees the state after a prefix of complete sections - whole updates only "
+            "(snapshot_is_prefix, section_atomic). The trace model is tied to the library by running every op of three streams over a "
+            "recording implementation of the public PtpInstanceStateMutex trait and comparing traces (nesting would be visible), and by "
+            "a thread stress run over the library's RwLock implementation that looks for mixed snapshots, blocked threads and poisoned locks.",
+    "note": "Trusted: Lean kernel; the lock's mutual exclusion; generators. Partial: real thread interleavings are sampled (stress), "
+            "not enumerated; what is proved is the discipline (flat, single write section) that makes every interleaving safe.",
+    "technique": "Lean 4 theorems over a lock-trace model (case analysis per call site) + differential correspondence of lock traces + thread stress oracle",
+}
+
 CLAIMED["C14"] = {
     "text": "Proof. Lean theorems: a completed peer exchange hands the filter exactly ((t4'-t1)-(t3'-t2))/2 (Spec.peerDelay, `fixed` "
             "division semantics), stamped t4', for every timestamp and correction value; a Pdelay_Resp or follow-up for the current "
